@@ -813,7 +813,13 @@ static void run_history_ops(int hidx, int len)
             rng_shuffle(&r, perm, n);
             switch (op) {
             case O_DESTROY: { int rc = liberasurecode_instance_destroy(L->desc); rc_hist("destroy", rc); L->desc = -1; live_close(L); live[sl] = 0; expect_zero = 0; } break;
-            case O_ENCODE: { char **ed = NULL, **ep = NULL; uint64_t fl; int rc = liberasurecode_encode(L->desc, (char *)L->data, L->s.len, &ed, &ep, &fl); rc_hist("encode", rc); if (rc == 0) liberasurecode_encode_cleanup(L->desc, ed, ep); } break;
+            case O_ENCODE: { char **ed = NULL, **ep = NULL; uint64_t fl; int rc = liberasurecode_encode(L->desc, (char *)L->data, L->s.len, &ed, &ep, &fl); rc_hist("encode", rc);
+                            /* the caller owns the contents of the returned fragments until cleanup: every other time it edits them in
+                             * place first (header magic cleared, a whole fragment overwritten, a payload byte flipped) - cleanup releases
+                             * what encode returned whatever the buffers hold by then */
+                            if (rc == 0 && rng_below(&r, 2)) { int w1 = (int)rng_below(&r, (uint32_t)k), w2 = L->c.m ? (int)rng_below(&r, (uint32_t)L->c.m) : -1;
+                                memset(ed[w1] + REF_OFF_MAGIC, 0, 4); if (w2 >= 0) { if (rng_below(&r, 2)) memset(ep[w2], 0xFF, fl); else ep[w2][REF_OFF_MAGIC] ^= 0x40; } if (fl > 80) ed[(w1 + 1) % k][80] ^= 1; mon_count("encode_outputs_edited_before_cleanup", 1); }
+                            if (rc == 0) { int cr = liberasurecode_encode_cleanup(L->desc, ed, ep); rc_hist("encode_cleanup", cr); } } break;
             case O_DECODE_OK: case O_DECODE_FEW: case O_DECODE_UNRECOVERABLE: case O_DECODE_DUP: case O_DECODE_BADHDR: case O_DECODE_RESEALED: {
                 int drop = op == O_DECODE_OK || op == O_DECODE_DUP ? (int)rng_below(&r, (uint32_t)tol + 1) : op == O_DECODE_FEW ? n - (k ? (int)rng_below(&r, (uint32_t)k) : 0) : op == O_DECODE_UNRECOVERABLE ? tol + 1 + (int)rng_below(&r, (uint32_t)(n - tol)) : (int)rng_below(&r, 2);
                 if (drop > n) drop = n;
@@ -1407,6 +1413,14 @@ static int run_script(const cfg_t *c, const sstep_t *sc, int ns, const char *wha
                       free(mine); } break;
             case 2: { uint8_t *o = malloc(S.flen); rc = liberasurecode_reconstruct_fragment(desc, lst, cnt, S.flen, sc[st].dest, (char *)o);
                       if (rc == 0) exact = !memcmp(o, S.frag[sc[st].dest], S.flen); free(o); } break;
+            case 4: { /* decode with the metadata checks forced while the last listed fragment has a damaged payload (set aside
+                       * by the checks where the stripe carries checksums): the backend still has to rebuild the lost data */
+                      uint8_t *bad = malloc(S.flen); memcpy(bad, lst[cnt - 1], S.flen); if (S.flen > 80) bad[80 + (st % 7)] ^= 0x21; lst[cnt - 1] = (char *)bad;
+                      char *out = NULL; uint64_t ol = 0;
+                      rc = liberasurecode_decode(desc, lst, cnt, S.flen, 1, &out, &ol);
+                      if (rc == 0) { exact = ol == len && !memcmp(out, data, len); liberasurecode_decode_cleanup(desc, out); }
+                      if (c->ct != CHKSUM_CRC32 && rc == 0) exact = 1;       /* without checksums the damage goes unnoticed: not this property's subject */
+                      free(bad); } break;
             case 3: { int R[2] = { sc[st].dest, -1 }, X[1] = { -1 }, N[40]; rc = liberasurecode_fragments_needed(desc, R, X, N); } break;
             }
             mon_count("evaluations", 1);
@@ -1470,6 +1484,7 @@ static void run_faults(void)
         /* the fragment with the highest index lost as well: rebuilt alone, and lost together with data fragment 0 */
         sc[ns++] = (sstep_t){ 2, 1u << (n - 1), n - 1 };
         if (tol >= 2) sc[ns++] = (sstep_t){ 1, 1u | 1u << (n - 1), 0 };
+        if (tol >= 2 && n - 2 >= c.k) { sc[ns++] = (sstep_t){ 4, 1u, 0 }; if (tol >= 3 && n - 3 >= c.k) sc[ns++] = (sstep_t){ 4, 1u | 1u << (c.k > 1 ? 1 : c.k), 0 }; }
         /* as much lost as the code tolerates: data fragment 0 and the tol-1 highest indexes (on the widest stripes more than
          * twenty fragments: whatever the failure path does with the list of missing indexes meets its longest form) */
         if (tol >= 3) { uint32_t er = 1u; for (int i = 0; i < tol - 1; i++) er |= 1u << (n - 1 - i); sc[ns++] = (sstep_t){ 1, er, 0 }; sc[ns++] = (sstep_t){ 2, er, 0 }; sc[ns++] = (sstep_t){ 2, er, n - 1 }; }
